@@ -138,6 +138,9 @@ func (env *SpecEnv) eval(x ast.Expr) Val {
 	case *ast.IndexExpr:
 		s := env.eval(n.X)
 		i := env.eval(n.Index)
+		if s.K == KGArr {
+			return vInt(sSel(s.T, i.T))
+		}
 		if s.K != KSlc {
 			env.fail("index of non-slice %s", exprString(n.X))
 		}
@@ -223,6 +226,9 @@ func (env *SpecEnv) ident(name string) Val {
 		t := env.st.get(comp)
 		if g.Sort == "Bool" {
 			return vBool(t)
+		}
+		if g.Sort == "(Array Int Int)" {
+			return Val{K: KGArr, T: t}
 		}
 		return vInt(t)
 	}
@@ -623,6 +629,19 @@ func (env *SpecEnv) call(n *ast.CallExpr) Val {
 			return vBool(sEq(a.T, b.T))
 		}
 		return vBool(sEq(a.T, b.T))
+	case "bytesOf":
+		// bytesOf(s): a ghost array holding the bytes of s (as they are now) at indices 0..len(s)-1
+		need(1)
+		sv := arg(0)
+		if len(env.bound) != 0 || env.in == nil {
+			env.fail("bytesOf cannot be used under a quantifier")
+		}
+		a := e.freshConst("bytesOf", "(Array Int Int)")
+		m := sSel(env.st.get("Mem"), slcArr(sv.T))
+		j := sym(e.fresh("q"))
+		e.assume(env.st.reach, fmt.Sprintf("(forall ((%s Int)) (! (=> (and (<= 0 %s) (< %s %s)) (= (select %s %s) (select %s (+ %s %s)))) :pattern ((select %s %s))))",
+			j, j, j, slcLen(sv.T), a, j, m, j, slcOff(sv.T), a, j))
+		return Val{K: KGArr, T: a}
 	case "changedOnly":
 		// changedOnly(arr, lo, hi): array arr differs from its old content at most at positions [lo, hi)
 		need(3)
